@@ -50,11 +50,11 @@ def gen(rng, tier):
             if rng.random() < 0.3:
                 st['pre_fail']['idx'] = sorted(set(st['pre_fail']['idx']) | {0})
     src_delays = [rng.choice([0, 0, 0, 0.001, 0.004])]
-    if n and rng.random() < 0.3:
+    if n and rng.random() < 0.4:
         # a source that stalls once for a "human-scale" time (virtual time is free): polling loops, watchdogs and idle timeouts
         # inside the library get their chance to fire while nothing is queued
         src_delays = [0] * n
-        src_delays[rng.randrange(n)] = rng.choice([0.1, 0.5, 1.0, 1.0, 1.0, 2.0, 5.0, 10.0, 60.0])
+        src_delays[rng.randrange(n)] = rng.choice([0.1, 0.1, 0.5, 1.0, 1.0, 1.0, 1.0, 2.0, 10.0, 60.0])
     sc = {'n': n, 'mode': mode, 'stages': [st], 'src_delays': src_delays,
           'consumer_delay': rng.choice([0, 0, 0, 0.002, 0.03])}
     cfg = swarm(rng, racy=0.15, line=0.2, max_time=200.0)
